@@ -199,13 +199,27 @@ func validateStruct(val reflect.Value, opts *options) error {
 func validateMap(val reflect.Value, opts *options) error {
 	val = chaseValue(val)
 	keys := val.MapKeys()
-	sort.Slice(keys, func(i, j int) bool { return keys[i].String() < keys[j].String() })
+	sort.Slice(keys, func(i, j int) bool { return mapKeyText(keys[i]) < mapKeyText(keys[j]) })
 	for _, key := range keys {
 		if err := tryRecursiveValidate(val.MapIndex(key), opts, nil); err != nil {
 			return err
 		}
 	}
 	return nil
+}
+
+// mapKeyText gives the text map entries are ordered by, so the entry whose
+// failure is reported does not depend on the order the runtime enumerates the
+// map in. reflect.Value.String is the same constant for every key that is no
+// string.
+func mapKeyText(k reflect.Value) string {
+	if k.Kind() == reflect.String {
+		return k.String()
+	}
+	if k.CanInterface() {
+		return fmt.Sprintf("%v\x00%T", k.Interface(), k.Interface())
+	}
+	return k.String()
 }
 
 func validateArray(val reflect.Value, opts *options) error {
